@@ -4,6 +4,8 @@ import McpModel.Wire.LemmasContent2
 import McpModel.Wire.LemmasBatch
 import McpModel.Wire.LemmasSpell
 import McpModel.Wire.LemmasResult
+import McpModel.Wire.LemmasOrder
+import McpModel.Wire.LemmasInput
 /-!
 # C19 (and the E2 part of C02) — property theorems of the wire engine
 
@@ -242,5 +244,96 @@ theorem call_tool_unnormalised_null (s : Option JVal) (e : Bool) :
     lookup CallToolResult_Content_name (callToolMembers none s e) = some .null ∧
     contentArrOK (lookup CallToolResult_Content_name (callToolMembers none s e)) = false :=
   L.call_tool_unnormalised_null s e
+
+/-! ## order of delivery (C03) -/
+
+/-- **batch_read_order** (C03, C19). For EVERY state of an `ioConn` and EVERY sequence of labels —
+frames arriving (single messages, batches of any size and composition), `Read`s, `Write`s, version
+changes — in which no `Read` fails: the messages the `Read`s returned, followed by what is still
+pending (the unread rest of the last frame, then the messages of the frames not yet taken), are
+exactly what was pending before followed by the messages of the frames fed — element by element, in
+the order in which the peer wrote them.  Nothing is reordered, duplicated or dropped, whatever the
+interleaving of reads with arrivals and writes. -/
+theorem batch_read_order (s : IOState) (ops : List IOOp)
+    (hok : ∀ r ∈ readResults s ops, ∃ m, r = .msg m) :
+    (readResults s ops).filterMap ReadOut.msg? ++ (ioRun s ops).pendingMsgs =
+      s.pendingMsgs ++ (fedFrames ops).flatMap frameMsgs :=
+  L.batch_read_order s ops hok
+
+/-- … so on a fresh connection that has been read dry, the concatenation of the messages `Read`
+returned IS the concatenation of the frames' messages. -/
+theorem batch_read_order_fresh (ops : List IOOp)
+    (hok : ∀ r ∈ readResults {} ops, ∃ m, r = .msg m) (hdry : (ioRun {} ops).pendingMsgs = []) :
+    (readResults {} ops).filterMap ReadOut.msg? = (fedFrames ops).flatMap frameMsgs := by
+  have h := batch_read_order {} ops hok
+  rw [hdry, List.append_nil] at h
+  simpa [IOState.pendingMsgs] using h
+
+/-- Without the proviso: the messages returned BEFORE the first failing `Read` (a read error ends the
+connection) are a prefix of what the peer wrote, in order. -/
+theorem batch_read_order_prefix (s : IOState) (ops : List IOOp) :
+    ∃ rest, s.pendingMsgs ++ (fedFrames ops).flatMap frameMsgs = msgsUntilErr (readResults s ops) ++ rest :=
+  L.batch_read_order_prefix s ops
+
+/-- Non-vacuity: the batch `[n, call 5, n]` is handed out as n, call 5, n. -/
+example :
+    let ops : List IOOp := [.feed (.arr [wNotif, wCall5, wNotif]), .read, .read, .read]
+    (readResults {} ops).filterMap ReadOut.msg? = [.request .none [110] none, .request (.int 5) [112] none, .request .none [110] none] := by
+  decide
+
+/-- The monitor's judgement "out of order" (the message returned is not the next element the peer
+wrote but IS a later one) cannot fire when `Read` returns the next element. -/
+theorem read_order_monitor_sound (same : Msg → JVal → Bool) (e : JVal) (rest : List JVal) (m : Msg)
+    (h : same m e = true) : outOfOrder same (e :: rest) m = false :=
+  L.outOfOrder_next same e rest m h
+
+/-! ## frames without a message -/
+
+/-- **read_batch_nonempty.** Whatever `readBatch` accepts carries at least one message: `ioConn.Read`
+takes `msgs[0]` and `msgs[1:]` of it. -/
+theorem read_batch_nonempty (raw : JVal) (ms : List Msg) (b : Bool) (h : readBatch raw = .ok (ms, b)) : ms ≠ [] :=
+  L.readBatch_nonempty raw ms b h
+
+/-- **degenerate_frames_rejected.** `null`, `[]`, every array whose first element is not an object
+(`[null]`, `[[]]`, `[[],[]]`, `[0]`, `[""]`, …) and every bare non-object are rejected with an error … -/
+theorem degenerate_frames_rejected (raw : JVal)
+    (h : raw = .null ∨ raw = .arr [] ∨ (∃ e t, raw = .arr (e :: t) ∧ notMsgShaped e = true) ∨
+      (notMsgShaped raw = true ∧ ∀ l, raw ≠ .arr l)) :
+    ∃ e, readBatch raw = .error e :=
+  L.degenerate_frames_rejected raw h
+
+/-- … and a `Read` that takes a rejected frame returns that error and leaves the connection's state
+alone: nothing queued, nothing tracked, no panic state. -/
+theorem read_degenerate_frame (s : IOState) (raw : JVal) (w : List JVal) (hq : s.queue = []) (hw : s.wire = raw :: w)
+    (e : RErr) (h : readBatch raw = .error e) :
+    opRead false s = ({ s with wire := w }, .err e) :=
+  L.read_degenerate_frame s raw w hq hw e h
+
+example : ∃ e, readBatch (.arr [.arr [], .null]) = .error e :=
+  degenerate_frames_rejected _ (Or.inr (Or.inr (Or.inl ⟨_, _, rfl, rfl⟩)))
+
+/-! ## `inputRequests` (fix F32) -/
+
+/-- **input_requests_null_entry_rejected.** A `null` entry anywhere in `inputRequests` makes the
+decode an error — before fix F32 the nil entry was dereferenced (client crash). -/
+theorem input_requests_null_entry_rejected (a b : List (Bytes × JVal)) (k : Bytes) :
+    decodeInputRequests (.obj (a ++ (k, .null) :: b)) = .error () :=
+  L.input_requests_null_entry_rejected a b k
+
+/-- **input_requests_case_sensitive.** A member of an entry whose name is not exactly `method` or
+`params` — e.g. `Method` — has no influence on how the entry decodes. -/
+theorem input_requests_case_sensitive (k : Bytes) (v : JVal) (a b : List (Bytes × JVal))
+    (h1 : k ≠ irmRaw_Method_name) (h2 : k ≠ irmRaw_Params_name) :
+    decodeInputEntry (.obj (a ++ (k, v) :: b)) = decodeInputEntry (.obj (a ++ b)) :=
+  L.input_entry_case_sensitive k v a b h1 h2
+
+example : ([77, 101, 116, 104, 111, 100] : Bytes) ≠ irmRaw_Method_name := by decide   -- "Method"
+
+/-- What is accepted: the keys of the wire object, in order, each naming one of the methods of the
+switch in `InputRequestMap.UnmarshalJSON`. -/
+theorem input_requests_methods (kvs : List (Bytes × JVal)) (l : List (Bytes × Bytes))
+    (h : decodeInputRequests (.obj kvs) = .ok l) :
+    l.map (·.1) = kvs.map (·.1) ∧ ∀ p ∈ l, p.2 ∈ inputRequestMethods :=
+  L.decodeInputEntries_ok kvs l h
 
 end Wire
